@@ -122,7 +122,13 @@ pub fn load_modules_for_program(
                         if module_info.native_functions.contains(&alias_qualified)
                             || module_info.native_functions.contains(&internal_qualified)
                         {
-                            known_native_globals.insert(alias_qualified);
+                            known_native_globals.insert(alias_qualified.clone());
+                        }
+                        // `needs std.math as m`: compile `m.sqrt` to the global the VM registers
+                        // for the module itself (math::sqrt), as the direct-import forms do, so
+                        // that saved bytecode names a module that can be found again
+                        if is_stdlib {
+                            symbol_origins.insert(alias_qualified, internal_qualified);
                         }
                     }
                 }
@@ -267,7 +273,13 @@ pub fn load_modules_with_memo(
                         if module_info.native_functions.contains(&alias_qualified)
                             || module_info.native_functions.contains(&internal_qualified)
                         {
-                            known_native_globals.insert(alias_qualified);
+                            known_native_globals.insert(alias_qualified.clone());
+                        }
+                        // `needs std.math as m`: compile `m.sqrt` to the global the VM registers
+                        // for the module itself (math::sqrt), as the direct-import forms do, so
+                        // that saved bytecode names a module that can be found again
+                        if is_stdlib {
+                            symbol_origins.insert(alias_qualified, internal_qualified);
                         }
                     }
                 }
